@@ -120,6 +120,9 @@ def typeof(t, fi, st, src_level, notes):
                 return base
             return ('scalar', base[1], False)
         if base[0] == 'where':
+            if is_c(idx) and isinstance(idx[1], int) and idx[1] not in (0, -1):
+                raise TypeErr('np.where of a 1-D label vector is a 1-tuple: %s does not exist (IndexError for every input)'
+                              % show(t)[:60])
             return ('set', base[1])
         return ('other',)
     if k == 'call':
